@@ -170,6 +170,10 @@ func runB(t *testing.T, sc Scenario) *core.Result {
 					fail("DESCRIBE", err)
 					return
 				}
+				if sc.DescribeOnly {
+					w.Probe("empty_path_url")
+					return
+				}
 				if err := c.SetupAll(d.BaseURL, d.Medias); err != nil {
 					fail("SETUP", err)
 					return
@@ -190,8 +194,12 @@ func runB(t *testing.T, sc Scenario) *core.Result {
 			if w.Failed() {
 				return
 			}
-			if verified < sc.Medias+2 {
-				w.Fail("c10/complete-challenge handler", "workload B: only %d requests carried credentials, expected %d (requests seen: %v)", verified, sc.Medias+2, seen)
+			want := sc.Medias + 2
+			if sc.DescribeOnly {
+				want = 1
+			}
+			if verified < want {
+				w.Fail("c10/complete-challenge handler", "workload B: only %d requests carried credentials, expected %d (requests seen: %v)", verified, want, seen)
 				return
 			}
 			w.Probe("valid_accepted")
